@@ -185,6 +185,9 @@ func genContent(t *simkit.Tape, kind string) []byte {
 	}
 	cfg.EmptyCDATA = false
 	cfg.Entities = false
+	if t.Bool(1, 4) {
+		cfg.Namespaces, cfg.NSMix = true, true
+	}
 	doc := model.GenXML(t, cfg)
 	return model.SerialiseXML(t, cfg, doc).Bytes
 }
